@@ -84,3 +84,45 @@ impl Target for T {
     }
     fn replay(&self, input: &Value) -> Result<(bool, String), String> { Ok(check(&input["history"])) }
 }
+
+/// C17 ground side: every routine against the definition on atoms around each length boundary of the canonical integer
+/// encoding (where clvmr switches between inline small atoms and heap atoms, and where a leading zero appears), alone and
+/// inside trees with shared subtrees
+pub fn tree_hash_ground() -> crate::eval::EvalResult {
+    let mut res = crate::eval::EvalResult { obligations: 0, discharged: 0, failures: vec![], samples: vec![], exhaustive: true };
+    fn canon(v: u64) -> Vec<u8> {
+        if v == 0 { return vec![]; }
+        let b = v.to_be_bytes();
+        let mut i = 0;
+        while b[i] == 0 { i += 1; }
+        let mut o = vec![];
+        if b[i] & 0x80 != 0 { o.push(0); }
+        o.extend_from_slice(&b[i..]);
+        o
+    }
+    let mut atoms: Vec<Vec<u8>> = vec![];
+    for base in [0u64, 0x18, 0x80, 0x100, 0x8000, 0x1_0000, 0x80_0000, 0x100_0000, 0x400_0000, 0x8000_0000, 0x1_0000_0000] {
+        for d in -2i64..=2 {
+            let v = base as i64 + d;
+            if v >= 0 { atoms.push(canon(v as u64)); }
+        }
+    }
+    // non-canonical and negative byte strings of the same lengths
+    for raw in [vec![0u8], vec![0, 0], vec![0, 0x7f], vec![0xff], vec![0xff, 0xff], vec![0x80, 0, 0], vec![0, 0, 0x80, 0, 0], vec![1, 0x80, 0, 0], vec![9u8; 32], vec![7u8; 48]] { atoms.push(raw); }
+    for (i, at) in atoms.iter().enumerate() {
+        let h = hex::encode(at);
+        for (shape, tree) in [("alone", json!(h)), ("in-pair", json!([h, "01"])), ("shared", json!([[h, h], [{"ref": 0}, [h, "ff"]]]))] {
+            res.obligations += 1;
+            let hist = json!([tree]);
+            let (bad, msg) = check(&hist);
+            if !bad { res.discharged += 1; } else if res.failures.len() < 6 {
+                res.failures.push(json!({"id": format!("tree_hash_ground/atom-{h}/{shape}"), "function": "tree_hash / tree_hash_cached / tree_hash_from_bytes",
+                    "message": format!("atom 0x{h} ({shape}): {msg}"), "clause": "every routine == sha256(1 ‖ atom) / sha256(2 ‖ left ‖ right)",
+                    "cex": {"unit": "tree_hash", "function": "tree_hash", "input": {"history": hist}}}));
+            }
+            let _ = i;
+        }
+    }
+    res.samples.push(json!({"obligation": format!("{} ground comparisons: {} atoms around every length boundary of the canonical encoding x 3 tree shapes, every routine vs the definition", res.obligations, atoms.len()), "backend": "native-eval"}));
+    res
+}
